@@ -58,6 +58,9 @@ CHECKS = {
  "C01": dict(engine="S", tech=S, ref="DESIGN.md §3 C01",
    text="All interleavings (preemption bound 3 quick / 5 thorough for 3-thread programs, 2/3 for 4-thread ones; every select resolution) of readers, writers, context cancellers and holders on the real SemMap, WideSemMap and WideXHashSemMap for rwRatio 1..3 and 1..3 shards: per-key holder counters at every entry, black-box arrival order, failed acquires never enter, deadlock = lost hand-off (cancel re-notify), entry residue checked at every scheduling decision and at the end, leaked-token probe.",
    note="vsync model of Mutex/close-broadcast channels/select; data-race freedom of scenario bodies; T<=5 threads, 2 keys"),
+ "C02": dict(engine="S", tech=S, ref="DESIGN.md §3 C02",
+   text="All interleavings (preemption bound 3 quick / 5 thorough, 2/3-4 for the 4-thread and 3-key programs) of Lock/RLock/Locks/RLocks - hold - unlock programs on the real KeyLocker, KeyLockerGrp, TKeyLocker[int], TKeyLockerGrp[int] (modulo and xxhash, 1..3 shards) incl. the pending-writer phase of the per-key RWMutex: per-key holder counters at every entry, key independence (one key held until another key's critical section finished), ordered multi-key lists with shard order different from list order, deadlock detection, entry residue at every quiescent scheduling decision and at the end.",
+   note="vsync model of Mutex/RWMutex; consistently ordered duplicate-free lists only (the property's own restriction); T<=4 threads, 3 keys"),
 }
 NA = {}
 
